@@ -48,6 +48,10 @@ Check(p, D, cc, gn, un, rg) ==
         \cup (IF \E X \in xs : m[X].c # None /\ (m[X].c \notin cs \/ ~p.conns[m[X].c].sess \/ ~p.conns[m[X].c].reg
                                                \/ p.conns[m[X].c].tcl) THEN {V(pre \o "LookupLive", D)} ELSE {})
         \cup (IF \E c \in dead : \E X \in xs : m[X].c = c THEN {V(pre \o "ClosedStillLookedUp", D)} ELSE {})
+        \* the connection returned is the registered one: looked up by its own id it is authenticated and bound to X as well
+        \* (otherwise the index points at a superseded object of that connection id)
+        \cup (IF \E X \in xs : m[X].c \in cs /\ p.conns[m[X].c].reg /\ ~(p.conns[m[X].c].authd /\ p.conns[m[X].c].cid = X)
+              THEN {V(pre \o "LookupRegistered", D)} ELSE {})
   IN   Lk(p.lookup, "") \cup Lk(p.ilookup, "Iface")
   \cup (IF \E X \in xs : Cardinality({c \in cs : p.conns[c].reg /\ p.conns[c].authd /\ p.conns[c].cid = X
                                                   /\ (c \in cc \/ p.lookup[X].c = c)}) > 1 THEN {V("OnePerClient", D)} ELSE {})
